@@ -3,12 +3,23 @@
 The streams run histories against a REAL DiscoveryServer with its real generators, registries and in-process
 Envoy-like / ztunnel-like clients, and judge the property's own observable (what the clients hold) - no model is
 involved, so a FAIL line is a failing input found on the implementation: fingerprint `e2e:<clause>`, the whole
-self-contained history is the replay.  Harness clauses (`harness-*`) are never a verdict about istio.
+self-contained history is the replay.
+
+Harness clauses (`harness-*`: no quiescence, a panic or an error inside the harness) are not a verdict about one
+case, but a run in which the harness could not judge is not a pass either: the run is reported as a broken tie
+(`tie-broken:e2e-harness:<stream>`, exit 1) when
+  * a corpus case ends in a harness clause (corpus cases are known to run cleanly on /repo),
+  * more than HARNESS_SHARE of the cases do (at least 2), or
+  * no case at all ended OK.
+A server that hangs on every case therefore fails the check.
 """
 import json
 import os
+import threading
 
 ROOT = os.path.dirname(os.path.dirname(os.path.abspath(__file__)))
+
+HARNESS_SHARE = 0.10
 
 
 def ready():
@@ -25,9 +36,13 @@ def build(ctx):
     return ok
 
 
-def _judge(ctx, stream, line, prefix):
+def _clause(line):
     parts = line.split(" ", 2)
-    clause = parts[1] if len(parts) > 1 else "unknown"
+    return parts[1] if len(parts) > 1 else "unknown"
+
+
+def _judge(ctx, stream, line, prefix):
+    clause = _clause(line)
     if clause.startswith("harness-"):
         ctx.count("e2e.%s.%s" % (stream, clause))
         return
@@ -36,47 +51,107 @@ def _judge(ctx, stream, line, prefix):
                   {"stream": "e2e/" + stream, "line": line}, True)
 
 
-def run(ctx, stream, ncases, prefix="e2e"):
-    """One end-to-end stream: corpus first, then `ncases` generated histories."""
-    if not ready() or not build(ctx):
-        ctx.count("e2e.%s.skipped" % stream)
-        return
-    out = os.path.join(ctx.work, "e2e.%s.out" % stream)
+def _is_corpus(line):
+    return line.startswith("OK corpus=") or '"corpus":"' in line
+
+
+def _run_shard(ctx, stream, ncases, out, shard, shards, res):
+    """One process of the harness; res[shard] = None (fine) or an error text."""
+    env = {"E2E_SHARD": "%d/%d" % (shard, shards)} if shards > 1 else None
     for attempt in (1, 2):
         if os.path.exists(out):
             os.remove(out)
-        rc, log = ctx.harness("run", stream, ctx.seed, ncases, out, pkg="e2e", timeout=2400)
+        rc, log = ctx.harness("run", stream, ctx.seed, ncases, out, pkg="e2e", timeout=2400, env_extra=env)
         if rc == 0 and os.path.exists(out):
-            break
+            res[shard] = None
+            return
         if attempt == 1 and rc == 3:
             # a case did not return within 4 minutes: on an overloaded machine that is not a fact about istio - once more
-            ctx.count("e2e.%s.hung-run-repeated" % stream)
+            res["repeated"] = res.get("repeated", 0) + 1
             continue
-        ctx.tie_broken("e2e-run:%s" % stream, "harness/e2e run %s: exit %s\n%s" % (stream, rc, log[-3000:]))
+        res[shard] = "harness/e2e run %s (shard %d/%d): exit %s\n%s" % (stream, shard, shards, rc, log[-3000:])
         return
+
+
+def _merge_stats(total, stats):
+    for k, v in stats.items():
+        if isinstance(v, dict):
+            d = total.setdefault(k, {})
+            for kk, vv in v.items():
+                d[kk] = d.get(kk, 0) + vv
+        elif isinstance(v, (int, float)):
+            total[k] = max(total.get(k, 0), v) if k == "millis" else total.get(k, 0) + v
+
+
+def run(ctx, stream, ncases, prefix="e2e", shards=1):
+    """One end-to-end stream: corpus first, then `ncases` generated histories. With shards > 1 the same case list
+    is played by that many processes side by side, each taking every shards-th case (deterministic per seed)."""
+    if not ready() or not build(ctx):
+        ctx.count("e2e.%s.skipped" % stream)
+        return
+    outs = [os.path.join(ctx.work, "e2e.%s.out" % stream) if shards == 1 else
+            os.path.join(ctx.work, "e2e.%s.%d.out" % (stream, i)) for i in range(shards)]
+    res = {}
+    threads = [threading.Thread(target=_run_shard, args=(ctx, stream, ncases, outs[i], i, shards, res)) for i in range(shards)]
+    for t in threads:
+        t.start()
+    for t in threads:
+        t.join()
+    if res.get("repeated"):
+        ctx.count("e2e.%s.hung-run-repeated" % stream, res["repeated"])
+    for i in range(shards):
+        if res.get(i) is not None:
+            ctx.tie_broken("e2e-run:%s" % stream, res[i])
+            return
     st = {"cases": 0, "ops": 0, "agree": True}
-    for line in ctx.read_lines(out):
-        if line.startswith("STATS"):
-            try:
-                stats = json.loads(line[6:])
-                ctx.extra["e2e_%s" % stream] = stats
-                st["ops"] = int(stats.get("steps", 0))
-            except ValueError:
-                pass
-            continue
-        if not line.strip():
-            continue
-        st["cases"] += 1
-        sample = None
-        if not any(s.get("stream") == "e2e/" + stream for s in ctx.samples):
-            sample = {"stream": "e2e/" + stream, "result": line[:400]}
-        ctx.note_case("e2e:%s:%s" % (stream, line), True, sample)
-        ctx.count("e2e.%s.%s" % (stream, line.split(" ", 1)[0]))
-        if line.startswith("FAIL"):
-            st["agree"] = False if not line.split(" ", 2)[1].startswith("harness-") else st["agree"]
-            _judge(ctx, stream, line, prefix)
+    total = {}
+    n_ok, n_harness, corpus_harness, harness_lines = 0, 0, [], []
+    for out in outs:
+        for line in ctx.read_lines(out):
+            if line.startswith("STATS"):
+                try:
+                    _merge_stats(total, json.loads(line[6:]))
+                except ValueError:
+                    pass
+                continue
+            if not line.strip():
+                continue
+            st["cases"] += 1
+            sample = None
+            if not any(s.get("stream") == "e2e/" + stream for s in ctx.samples):
+                sample = {"stream": "e2e/" + stream, "result": line[:400]}
+            ctx.note_case("e2e:%s:%s" % (stream, line), True, sample)
+            ctx.count("e2e.%s.%s" % (stream, line.split(" ", 1)[0]))
+            if line.startswith("OK"):
+                n_ok += 1
+            elif line.startswith("FAIL"):
+                if _clause(line).startswith("harness-"):
+                    n_harness += 1
+                    harness_lines.append(line[:1500])
+                    if _is_corpus(line):
+                        corpus_harness.append(line[:1500])
+                else:
+                    st["agree"] = False
+                _judge(ctx, stream, line, prefix)
+    if total:
+        ctx.extra["e2e_%s" % stream] = total
+        st["ops"] = int(total.get("steps", 0))
     ctx.streams["e2e/" + stream] = st
     ctx.log("stream e2e/%s: %d cases, %d steps" % (stream, st["cases"], st["ops"]))
+    # a run the harness could not judge is not a pass
+    why = None
+    if corpus_harness:
+        why = "%d corpus case(s) ended in a harness clause" % len(corpus_harness)
+    elif n_harness >= 2 and n_harness > HARNESS_SHARE * st["cases"]:
+        why = "%d of %d cases ended in a harness clause (more than %d%%)" % (n_harness, st["cases"], int(HARNESS_SHARE * 100))
+    elif st["cases"] > 0 and n_ok == 0:
+        why = "no case of %d ended OK" % st["cases"]
+    elif st["cases"] == 0:
+        why = "the run produced no case line"
+    if why:
+        st["agree"] = False
+        ctx.tie_broken("e2e-harness:%s" % stream,
+                       "stream e2e/%s could not be judged: %s\n%s" % (stream, why, "\n".join((corpus_harness or harness_lines)[:4])))
 
 
 def is_e2e_replay(rep):
@@ -98,3 +173,5 @@ def replay(ctx, rep, prefix="e2e"):
     ctx.log("e2e replay: " + verdict[-1][:300])
     if verdict[-1].startswith("FAIL"):
         _judge(ctx, stream, verdict[-1], prefix)
+        if _clause(verdict[-1]).startswith("harness-"):
+            ctx.tie_broken("e2e-harness:%s" % stream, "the replayed case ended in a harness clause\n" + verdict[-1][:1500])
